@@ -223,6 +223,12 @@ func (idx *KVIndex) removeDocTx(tx kvi.KVTransaction, docID string) error {
 		return fmt.Errorf("failed to unmarshal document: %v", err)
 	}
 	for _, entryKey := range doc.Entries {
+		//an entry that is gone was deleted along with its field (RemoveField). If the
+		//field has been added again since, the term records found under its name count
+		//the entries of other documents and must be left alone
+		if !tx.HasKey(entryKey) {
+			continue
+		}
 		field, ttype, term, _ := EntryKeyParse(entryKey)
 		termKey := TermKey(field, ttype, term)
 		//the term count has to be read while the entry is still there: an invalidated
